@@ -862,6 +862,20 @@ def generate(repo: str):
                  and isinstance(c.value, str) for c in e.elts) for e in v.elts), "soundex: replacements is not a literal table of (letters, digit)")
             table[0] = [(e.elts[0].value, e.elts[1].value) for e in v.elts]
             n.value = ast.Constant(value="<TABLE>")
+    # the early return for a first character that is not a letter:  original = s (before normalising) ...
+    #     if not "A" <= s[0] <= "Z": return original
+    early = False
+    for k, st in enumerate(list(fn.body)):
+        if isinstance(st, ast.If) and not st.orelse and len(st.body) == 1 and isinstance(st.body[0], ast.Return) \
+                and ast.unparse(st.test) in ("not 'A' <= s[0] <= 'Z'", "not ('A' <= s[0] <= 'Z')") and isinstance(st.body[0].value, ast.Name):
+            keep = st.body[0].value.id
+            saves = [j for j, x in enumerate(fn.body[:k]) if isinstance(x, ast.Assign) and ast.unparse(x) == f"{keep} = s"]
+            changes = [j for j, x in enumerate(fn.body[:k]) if isinstance(x, ast.Assign) and ast.unparse(x.targets[0]) == "s"]
+            need(len(saves) == 1 and all(saves[0] < j for j in changes) and any("s.upper()" in ast.unparse(fn.body[j]) for j in changes),
+                 "soundex: the early return does not return the untouched input after upper-casing")
+            early = True
+            fn.body = [x for j, x in enumerate(fn.body) if j not in (k, saves[0])]
+            break
     # the inner for-else over the table, inside the loop over the letters: its else-branch decides what an uncoded letter does
     outer = [n for n in ast.walk(fn) if isinstance(n, ast.For) and isinstance(n.target, ast.Name) and n.target.id == "letter"]
     need(len(outer) == 1, "soundex: loop over the letters not found")
@@ -899,8 +913,9 @@ def generate(repo: str):
     t = I.function("soundex")
     need(t[0] == "anon" and t[1] == "SOUNDEX" and len(t[2]) == 1 and is_param(t[2][0], "col"), f"functions.soundex is not SOUNDEX(col): {t}")
     tbl = "[" + "; ".join("([" + "; ".join(str(ord(ch)) for ch in letters) + f"], {ord(digit)})" for letters, digit in table[0]) + "]"
-    fact("soundex", "soundex_cfg", f"mkSoundex {tbl} [" + "; ".join(str(ord(x)) for x in transparent[0]) + "]", ["soundex", "util.soundex"],
-         "replacement table and the letters skipped without forgetting the last code; the rest of the body is pinned by its normalised hash")
+    fact("soundex", "soundex_cfg", f"mkSoundex {tbl} [" + "; ".join(str(ord(x)) for x in transparent[0]) + "] " + ("true" if early else "false"), ["soundex", "util.soundex"],
+         "replacement table, the letters skipped without forgetting the last code, and whether a string whose first character is not a letter is "
+         "returned unchanged; the rest of the body is pinned by its normalised hash")
 
     # ---- concat ---------------------------------------------------------------------------------------------------
     st = I.duck_statements("concat")
